@@ -88,7 +88,7 @@ BOUNDS = {
               'balanced': 'K,M in {2,3}, R in {1,2}; 4 row orders; masks: none, every cell, whole channel, '
                           'whole observation (+ every pair of cells for <=6 rows)',
               'fills': 'generic float fill + integer fill (complete data)',
-              'layout/dtype variants': 'F order on every second case, int64 C/F on every integer-fill case'},
+              'layout/dtype variants': 'F order on every third case (rotating through configurations and masks), int64 C/F + F on every integer-fill case'},
     'thorough': {'n_obs': '1..6, every set partition (278); n=6: masks of <=1 cell + whole',
                  'n_channel': '2, 3 (+4 for n<=4)',
                  'fold_partitions': 'n<=4 with all masks, n=5 with <=1 cell + whole',
@@ -371,7 +371,7 @@ def _judge(ctx, case, got, want, cls):
         ctx.fail('calc_rdm_unbalanced|any|labels-not-in-order-of-first-appearance', case,
                  'returned labels %r, first appearance gives %r' % (labs, order))
         ok = False
-    nan_self = [i for i, s in enumerate(want['self']) if s is not None and s != s]
+    nan_self = [i for i, s in enumerate(want['self']) if s is None or s != s]   # no valid / no defined self-product
     judged = finite = 0
     for (a, b), w in want['dist'].items():
         g = vec[_vec_index(pos[a], pos[b], k)]
@@ -383,7 +383,7 @@ def _judge(ctx, case, got, want, cls):
             finite += 1
         ctx.dev('full/' + case['method'], reldev(g, w) if (g == g) == (w == w) else 0.0)
         if not close(g, w, TOL):
-            if g != g and w == w and any(c not in (a, b) for c in nan_self):
+            if g != g and w == w and any(c not in (a, b) for c in nan_self) and cls != 'weighting=equal,no-fold':
                 ctx.fail('calc_rdm_unbalanced|condition-without-valid-self-product|nan-poisoning', case,
                          'pair (%r,%r): got NaN, pairwise definition gives %.12g; condition(s) %r have no valid '
                          'self-product, which must make only their own pairs NaN; returned vector %r' % (
@@ -496,7 +496,7 @@ def _balanced_kind(case, lab_eff, folds, has_nan):
     return 'fold-balanced'
 
 
-def _vs_calc_rdm(ctx, case, X, labels, folds, prec, got, kind):
+def _vs_calc_rdm(ctx, case, X, labels, folds, prec, got, kind, defined):
     cls = 'method=%s,%s' % (case['method'], kind)
     sub = dict(case, oracle='calc_rdm')
     if case['design'].get('naming') == 'index' and case['method'] in CV_METHODS:
@@ -520,6 +520,8 @@ def _vs_calc_rdm(ctx, case, X, labels, folds, prec, got, kind):
         return
     for a in range(k):
         for b in range(a + 1, k):
+            if not defined[_vec_index(a, b, k)]:
+                continue
             g = vec[_vec_index(a, b, k)]
             w = bvec[_vec_index(pos[a], pos[b], k)]
             ctx.dev('calc_rdm/' + case['method'], reldev(g, w) if (g == g) == (w == w) else 0.0)
@@ -530,12 +532,22 @@ def _vs_calc_rdm(ctx, case, X, labels, folds, prec, got, kind):
                 return
 
 
-def _same_result(a, b, tol):
+def _same_result(a, b, tol, defined=None):
+    """same labels, same values (NaN == NaN); `defined`: flags per entry, undefined entries are not compared"""
     la, va = a
     lb, vb = b
     if la != lb or len(va) != len(vb):
         return False
-    return all(close(x, y, tol) for x, y in zip(va, vb))
+    return all(close(x, y, tol) for i, (x, y) in enumerate(zip(va, vb)) if defined is None or defined[i])
+
+
+def _defined(want):
+    """per entry of the returned vector (reference order): is the value defined by the statement"""
+    k = len(want['order'])
+    out = [True] * (k * (k - 1) // 2)
+    for (a, b), w in want['dist'].items():
+        out[_vec_index(a, b, k)] = w is not None
+    return out
 
 
 # ----------------------------------------------------------------------------- one case
@@ -611,7 +623,7 @@ def _run_structured(case, ctx):
     # ---- balanced estimator
     bk = _balanced_kind(case, lab_eff, folds, has_nan)
     if bk is not None and len(want['order']) >= 2:
-        _vs_calc_rdm(ctx, case, X, labels, folds, prec, got, bk)
+        _vs_calc_rdm(ctx, case, X, labels, folds, prec, got, bk, _defined(want))
     # ---- a channel missing everywhere == that channel deleted
     ch = _whole_channel(mask, n, n_ch) if has_nan else None
     if ch is not None and n_ch >= 2:
@@ -621,7 +633,7 @@ def _run_structured(case, ctx):
         pd = None if prec is None else np.ascontiguousarray(prec[np.ix_(keep, keep)])
         gd = _lib_full(ctx, sub, Xd, labels, folds, pd, cls)
         ctx.case(sub, nontrivial=finite > 0)
-        if gd is not None and not _same_result(got, gd, TOL):
+        if gd is not None and not _same_result(got, gd, TOL, _defined(want)):
             ctx.fail('calc_rdm_unbalanced|channel-missing-everywhere|differs-from-channel-deleted', sub,
                      'channel %d NaN in every observation gives %r, the data set without that channel gives %r' % (
                          ch, got[1].tolist(), gd[1].tolist()))
@@ -715,9 +727,10 @@ def shards(tier, seed):
     th = tier == 'thorough'
     out = [{'kind': 'oob_probe'}]
     for n_ch in (2, 3):
-        out.append({'kind': 'lab', 'ns': [1, 2, 3], 'P': n_ch, 'parts': None})
-        for p in range(combi.BELL[4]):
-            out.append({'kind': 'lab', 'ns': [4], 'P': n_ch, 'parts': [p, p + 1]})
+        out.append({'kind': 'lab', 'ns': [1, 2], 'P': n_ch, 'parts': None})
+        for n in (3, 4):
+            for p in range(combi.BELL[n]):
+                out.append({'kind': 'lab', 'ns': [n], 'P': n_ch, 'parts': [p, p + 1]})
         for p in range(combi.BELL[5]):
             if n_ch == 3:   # the largest blocks: one shard per fold variant
                 for fv in (0, 1, 2):
@@ -753,7 +766,7 @@ def shards(tier, seed):
 def _variants(fill, has_nan, idx, tier):
     if fill == 'int' and not has_nan:
         return ['int', 'intF', 'F']
-    if tier == 'thorough' or idx % 2 == 0:
+    if tier == 'thorough' or idx % 3 == 0:
         return ['F']
     return []
 
